@@ -91,44 +91,11 @@ def namespaces():
 POOL = namespaces()
 
 
-_STATE = []
-
-
 def reset_global_state():
-    """Module- and class-level mutable containers of the package (lazy
-    command tables, caches) are put back to their state at import time
-    before every schedule, so that 'first use in the process' code paths
-    are explored by every schedule and no state leaks between schedules."""
-    import copy
-    import sys
-    if not _STATE:
-        import importlib
-        import pkgutil
-        for pkg in ('DocumentTemplate', 'TreeDisplay'):
-            m = importlib.import_module(pkg)
-            for info in pkgutil.iter_modules(m.__path__, pkg + '.'):
-                if not info.ispkg:
-                    importlib.import_module(info.name)
-        for name, mod in sorted(sys.modules.items()):
-            if mod is None or '.tests' in name or not (
-                    name.split('.')[0] in ('DocumentTemplate',
-                                           'TreeDisplay')):
-                continue
-            holders = [mod] + [v for v in vars(mod).values()
-                               if isinstance(v, type) and
-                               v.__module__ == name]
-            for h in holders:
-                for k, v in list(vars(h).items()):
-                    if k.startswith('__') or k in ('COOKLOCK',):
-                        continue
-                    if type(v) in (dict, list, set):
-                        _STATE.append((v, copy.copy(v)))
-        _STATE.append((None, None))
-    for v, snap in _STATE:
-        if v is None or v == snap:
-            continue
-        v.clear()
-        (v.extend if isinstance(v, list) else v.update)(snap)
+    """Before every schedule the module- and class-level mutable containers
+    of the package are put back to their import-time content (vf/gstate.py)."""
+    from vf import gstate
+    gstate.restore()
 
 
 def call_for(template, spec):
